@@ -259,11 +259,11 @@ func TestCheckDomain(t *testing.T) {
 		t.Fatalf("%v cap=%d", err, good.FirstCap())
 	}
 	for name, f := range map[string]func(c *Config){
-		"seg-1":     func(c *Config) { c.SegmentSize-- },
-		"tag>size":  func(c *Config) { c.TagSize = 21; c.SegmentSize++ },
-		"tag<10":    func(c *Config) { c.TagSize = 9 },
+		"seg-1":       func(c *Config) { c.SegmentSize-- },
+		"tag>size":    func(c *Config) { c.TagSize = 21; c.SegmentSize++ },
+		"tag<10":      func(c *Config) { c.TagSize = 9 },
 		"key<derived": func(c *Config) { c.MainKey = seq(31, 0) },
-		"keysize":   func(c *Config) { c.KeySize = 24 },
+		"keysize":     func(c *Config) { c.KeySize = 24 },
 	} {
 		c := good
 		f(&c)
